@@ -11,6 +11,34 @@ ENGINES = [
 ]
 
 CHECKS = {
+    "C04": {
+        "text": "Static analysis of the code generator LinearFilter.__call__: its string-building slice is constant-folded "
+                "over abstract coefficient tokens to reconstruct the exec'd generator for ~800 schemas (exhaustive over "
+                "coefficient classes up to order 2 in the thorough tier); each generated function is parsed and one "
+                "inductive step of the difference equation, the state shift, memory order, zero init, single yield and "
+                "the zero filter are proved in rational normal form with symbolic samples; plus causality guard first, "
+                "memory normalisation and exec wiring. Bounded over filter shapes, unbounded over inputs.",
+        "note": NOTE,
+        "technique": "constant folding of the kernel builder + rational-normal-form check of the generated AST",
+    },
+    "C05": {
+        "text": "Static analysis: __ne__ is the De Morgan complement of __eq__ for LinearFilter/FilterList/Poly/"
+                "TableLookup; __hash__ reads only what __eq__ compares; every return path of the ZFilter operators and "
+                "of the reflected/unary templates equals the rational-function identity in Q(A,B,C,D,c) (normal forms, "
+                "no solver); substitution f(g); cascade = product / parallel = sum with numerator and denominator "
+                "projected from one fraction; linearize weights. Does not decide outputs on signals.",
+        "note": NOTE,
+        "technique": "boolean-skeleton duality + rational normal forms over loop-free paths",
+    },
+    "C06": {
+        "text": "Static analysis: generated kernels with Stream coefficients advance each iterator exactly once per "
+                "sample, satisfy the time-varying difference equation in normal form and protect next() (PEP 479); "
+                "variable-a0 arm is a rational identity with one copied gain; linear-use accounting (carriers with "
+                "copy-before-use, no aliasing replication, thub budgets of Poly with symbolic multiplicities); "
+                "avoid_stream coverage. Does not compute sample values.",
+        "note": NOTE,
+        "technique": "template-frame reconstruction + tee/linear-use accounting over symbolic sizes",
+    },
     "C03": {
         "text": "Static analysis (obligations discharged on the current source): no StopIteration escape from "
                 "take/limit/skip generator frames; take arms; peek consumes only a copy; tee discipline of copy; hub "
